@@ -923,8 +923,53 @@ func (c *Ctx) ruleLogLevels() {
 					return c.provesFact(fa, s, Fact{aTR, tt.mk(Term{K: "B", S: "<=", A: c.intConst(0), B: xt}), true}, nil) &&
 						c.provesFact(fa, s, Fact{aTR, tt.mk(Term{K: "B", S: "<=", A: xt, B: c.intConst(65535)}), true}, nil)
 				})
+				// ... and every integer in that range is accepted: where the conversion is bypassed
+				// although the argument was an int, the int is known to lie outside 0..65535
 				if good {
-					rep.ok("R-LOGLEVEL", name, construct, pos, "the integer is known to lie in 0..65535 where it is converted")
+					if ex, ok := cv.X.(*ssa.Extract); ok {
+						defB := ex.Block()
+						S := cv.Block()
+						for d := S.Idom(); d != nil && d != defB.Idom(); d = d.Idom() {
+							iff, ok := d.Instrs[len(d.Instrs)-1].(*ssa.If)
+							if !ok || !defB.Dominates(d) {
+								continue
+							}
+							// only tests that involve the integer itself
+							bo, ok := iff.Cond.(*ssa.BinOp)
+							if !ok || (bo.X != cv.X && bo.Y != cv.X) {
+								continue
+							}
+							for j, sc := range d.Succs {
+								if c.blockReaches(sc, S) && sc != S && sc.Dominates(S) {
+									continue
+								}
+								if sc == S || sc.Dominates(S) {
+									continue
+								}
+								if j >= len(fa.edgeOut[d]) {
+									continue
+								}
+								for _, s := range fa.edgeOut[d][j] {
+									if s.dead {
+										continue
+									}
+									xt := fa.term(s, cv.X)
+									out := c.provesFact(fa, s, Fact{aTR, tt.mk(Term{K: "B", S: "<", A: xt, B: c.intConst(0)}), true}, nil) ||
+										c.provesFact(fa, s, Fact{aTR, tt.mk(Term{K: "B", S: "<", A: c.intConst(65535), B: xt}), true}, nil)
+									if !out {
+										good = false
+									}
+								}
+							}
+						}
+					}
+					if !good {
+						rep.bad("R-LOGLEVEL", name, construct, pos, "an integer inside 0..65535 can be refused (the range test excludes values that name a level set)")
+						continue
+					}
+				}
+				if good {
+					rep.ok("R-LOGLEVEL", name, construct, pos, "the integer is converted exactly when it lies in 0..65535")
 				} else {
 					rep.bad("R-LOGLEVEL", name, construct, pos, "an integer outside 0..65535 is truncated into a level (65536 reads as none, -1 as all)")
 				}
